@@ -671,6 +671,10 @@ def run(prop, report, tier, seed, replay=None):
     if prop == 'C07' and (replay is None or replay['input'].get('level') == 'store'):
         # "... or reconstruction from cache metadata": through the real metadata file, not only the serializer
         stage_store_roundtrip(report, tier, rng, dist, prop='C07')
+    if prop == 'C07' and (replay is None or replay['input'].get('level') == 'main-script'):
+        # "the same key in every process": task types defined in the started script, run by spawned and forked workers
+        import props_cache
+        props_cache.stage_main_script_types(report, 'C07')
     if prop == 'C07' and replay is None:
         # same-named classes nested in different outer classes (enum members and tasks as parameter values)
         pairs = [(U.V2(x=U.NestA.Kind.FAST), U.V2(x=U.NestB.Kind.FAST)), (U.V2(x=(U.NestA.Kind.FAST,)), U.V2(x=(U.NestB.Kind.FAST,))),
